@@ -33,7 +33,7 @@ ASSUMPTIONS = ['checksum bytes are masked in the byte comparison (the reader ign
 SHARDS = {'quick': 4, 'thorough': 16}
 REQUIRED_CLASSES = {'tif-normal': 1, 'tif-reversed': 1, 'trailer-recnum': 1, 'trailer-filenum': 1, 'trailer-checksum': 1,
                     'pr-len<32': 1, 'read-ends-on-pr-boundary': 1, 'producer-filewrite': 1,
-                    'pr-longer-than-32KiB': 1, 'reversed-first-next-multiple-of-256': 1}
+                    'pr-longer-than-32KiB': 1, 'reversed-first-next-multiple-of-256': 1, 'physical-records>65536': 1}
 
 
 class KeepOpen(io.BytesIO):
@@ -405,9 +405,31 @@ def check_strip(case, cc):
     cc.sample({'cfg': cfg, 'lr_lengths': [len(x) for x in lrs], 'markers': n_prs + 2})
 
 
+@st.composite
+def many_record_cases(draw):
+    """More physical records than the 16 bit record number of the trailer can count (it wraps at 65536): one logical
+    record cut into ~65536 + k physical records of the smallest sizes, then a few small records.  Built when checked."""
+    cfg = draw(G.phys_cfgs(tif_options=('none', 'none', 'normal')))
+    tl = G.trailer_len(dict(cfg, rec_num=True))
+    cfg = dict(cfg, rec_num=True, pr_len=G.PRH_LEN + tl + draw(st.integers(1, 6)))
+    return {'cfg': cfg, 'n_prs': 65536 + draw(st.integers(-3, 40)), 'rest': draw(st.integers(0, 5)),
+            'tail': draw(st.lists(st.integers(2, 40), min_size=1, max_size=4))}
+
+
+def check_many_records(case, cc):
+    cfg = case['cfg']
+    mp = cfg['pr_len'] - G.PRH_LEN - G.trailer_len(cfg)
+    n = case['n_prs'] * mp - min(case['rest'], mp - 1)
+    big = bytes([0, 0]) + bytes((7 * i + (i >> 8)) & 0xFF for i in range(n - 2))
+    lrs = [big] + [bytes([128, 0]) + bytes((k + i) & 0xFF for i in range(ln - 2)) for k, ln in enumerate(case['tail'])]
+    cc.cls('physical-records>65536')
+    check_write({'cfg': cfg, 'lrs': lrs}, cc)
+
+
 def parts(tier):
     return [
         HypPart('write-vs-reference', write_cases(), check_write, 3000, 40000),
         MachinePart('read-history', ReadMachine, engine.replay_machine_case(start, step), 2500, 40000, steps=30),
         HypPart('strip-tif', strip_cases(), check_strip, 1500, 20000),
+        HypPart('write-many-records', many_record_cases(), check_many_records, 4, 48),
     ]
